@@ -148,6 +148,9 @@ func (rp *replayer) replay(ref harnessRef, v *Violation, path string) string {
 	if errs != "" {
 		return errs
 	}
+	if os.Getenv("GOSYM_NATIVEOUT") != "" {
+		fmt.Fprintf(os.Stderr, "[native output %s]\n%s\n", path, nr.output)
+	}
 	switch {
 	case v.Label == "panic":
 		if strings.HasPrefix(nr.result, "panic:") || nr.result == "out-of-memory" {
